@@ -127,7 +127,7 @@ Proof.
   - (* PSetOpt: neither text touches the ready list *)
     destruct o; try (cbn [push_step] in H; inversion H; subst; exact HI).
     destruct (fr && negb (8192 <? N.of_nat n)%N).
-    + unfold push_resize_admit in H. inversion H; subst. exact HI.
+    + unfold push_resize_takein in H. inversion H; subst. exact HI.
     + cbn [push_step] in H. destruct (8192 <? N.of_nat n)%N; inversion H; subst; exact HI.
   - cbn [push_step] in H. inversion H; subst. exact HI.
   - cbn [push_step] in H. inversion H; subst. exact HI.
